@@ -160,7 +160,7 @@ def run_part_a(ci, acc):
 
 
 def draw_program_b(draw, ci):
-    p = c09.draw_program(draw, ci, max_threads=3, max_ops=2)
+    p = c09.draw_program(draw, ci, max_threads=3, max_ops=2, families=False)
     p["docs"] = p["docs"] + [enc({} if ci.kind == "dict" else [])]
     p["root_kinds"] = p["root_kinds"] + [ci.kind]
     # sprinkle object constructions (class lock) and make clear/reset likely
@@ -249,7 +249,21 @@ def programs_d(ci):
     m = "update" if kind == "dict" else "extend"
     out = [("cross_operands", dict(base, threads=[[{"h": 0, "m": m, "a": [{"$h": 2}]}, dict(w("p"), h=0)],
                                                   [{"h": 2, "m": m, "a": [{"$h": 0}]}]]))]
+    # x.filename = other WHILE another thread operates through the same object x
+    out.append(("retarget_during_own_operation", dict(base, threads=[
+        [dict(w("p"), h=0), dict(w("q"), h=0)], [{"h": 0, "m": "set_filename", "a": [1]}],
+        [dict(w("r"), h=1), dict(w("s"), h=2)]])))
     if ci.buffered:
+        # a PLAIN-class object and a buffered-class object on one file, and a buffered object of
+        # another file as operand of the plain object's operation
+        plain = {"BufferedJSONDict": "JSONDict", "MemoryBufferedJSONDict": "JSONDict",
+                 "BufferedJSONList": "JSONList", "MemoryBufferedJSONList": "JSONList",
+                 "BufferedJSONAttrDict": "JSONAttrDict", "MemoryBufferedJSONAttrDict": "JSONAttrDict",
+                 "BufferedJSONAttrList": "JSONAttrList", "MemoryBufferedJSONAttrList": "JSONAttrList"}[ci.name]
+        hs = [{"file": 0, "cls": plain}, {"file": 0}, {"file": 1}]
+        copyop = ({"m": "setitem", "a": ["copy", {"$h": 2}]} if kind == "dict" else {"m": "append", "a": [{"$h": 2}]})
+        out.append(("plain_and_buffered_class_on_one_file", dict(base, handles=hs, buffered={"cap": None}, threads=[
+            [dict(copyop, h=0)], [dict(w("y"), h=1)], [dict(w("z"), h=2)]])))
         out.append(("cross_operands_buffered", dict(out[0][1], buffered={"cap": None})))
         out.append(("exit_main_during_op", dict(base, buffered={"cap": None}, threads=[
             [dict(w("p"), h=0), dict(w("q"), h=2)], [{"h": 0, "m": "ctx_exit_main", "a": []}, dict(w("r"), h=1)]])))
@@ -306,6 +320,7 @@ def run_shard(spec, seed, tier, active):
     if spec["part"] == "D":
         for name, program in programs_d(ci):
             T = len(program["threads"])
+            conc.MAX_SCHEDULES[0] = 700 if tier == "quick" else 20000
             base, bres, ones, exhaustive = conc.one_preemption_schedules(
                 program, T, full_limit=400 if tier == "quick" else 4000)
             results = bres + sched.explore(program, ones)
